@@ -52,12 +52,6 @@ proof fn lemma_ino_mask(n: u64)
     }
 }
 
-// ---- C06: "names are single components": no '/', not "." and not ".."
-spec fn has_slash(n: Seq<u8>) -> bool { n.contains(47u8) }
-spec fn is_dot(n: Seq<u8>) -> bool { n =~= seq![46u8] }
-spec fn is_dotdot(n: Seq<u8>) -> bool { n =~= seq![46u8, 46u8] }
-spec fn safe_name(n: Seq<u8>) -> bool { !has_slash(n) && !is_dot(n) && !is_dotdot(n) }
-
 // ---- C14: "Ids outside the mapped range pass unchanged and translation there and back is the identity on the range"
 //      a mapping is (internal base, external base, range)
 spec fn spec_remap(v: u32, from: u32, to: u32, range: u32) -> u32 {
@@ -149,9 +143,6 @@ impl Route {
     // client-visible identity of the routed object (used to re-encode attributes)
     spec fn id(self) -> VfsInode { VfsInode(enc(self.idx(), self.ino())) }
 }
-spec fn einval<T>(r: Result<T>) -> bool { r is Err && r->Err_0.os_code() == Some(22i32) }
-spec fn enoent<T>(r: Result<T>) -> bool { r is Err && r->Err_0.os_code() == Some(2i32) }
-spec fn enosys<T>(r: Result<T>) -> bool { r is Err && r->Err_0.os_code() == Some(38i32) }
 '''
 
 
@@ -238,14 +229,14 @@ def routed_fn(name, d, info):
             bres = 'res == self.be(i).res_%s()' % name
     ens = []
     if d.get('names'):
-        ens.append('!(%s) ==> einval(res) // [C06.vfs.%s.gate]' % (gate, name))
+        ens.append('!(%s) ==> is_einval(res) // [C06.vfs.%s.gate]' % (gate, name))
     if d.get('opt'):
-        ens.append('(%s) && !(%s) ==> enosys(res) // [C12.vfs.%s.%s]' % (gate, gate_opt, name, d['opt']))
+        ens.append('(%s) && !(%s) ==> is_enosys(res) // [C12.vfs.%s.%s]' % (gate, gate_opt, name, d['opt']))
     ens.append('''({ let rt = self.route(%(ino)s);
            (%(gate)s) && (%(gopt)s) ==> match rt {
                Route::Pseudo(n) => res == self.root.res_%(op)s(),
                Route::Backend(i, n) => %(bres)s,
-               Route::Vacant => enoent(res) } }) // [C07.%(op)s.result]%(c14)s''' % dict(
+               Route::Vacant => is_enoent(res) } }) // [C07.%(op)s.result]%(c14)s''' % dict(
         ino=ino, gate=gate, gopt=gate_opt, op=name, bres=bres, c14=('[C14.%s.ids]' % name) if conv else ''))
     sig_subst = [('Self::Inode', 'VfsInode')] if False else []
     return dict(requires=req, ensures=ens)
@@ -306,7 +297,7 @@ impl vstd::std_specs::convert::FromSpecImpl<u64> for VfsInode {
         Fn(MOD, None, 'is_safe_path_component', ensures=['r == safe_name(name@) // [C06.names.safe]'], props=['C06'],
            splices=[('let bytes = name.to_bytes_with_nul();', 'after', 'proof { axiom_cstr_no_nul(name); lemma_contains_push(name@, 47u8, 0u8); }')]),
         Fn(MOD, None, 'validate_path_component',
-           ensures=['r is Ok <==> safe_name(name@) // [C06.names.validate]', 'r is Err ==> einval(r) // [C06.names.errno]'], props=['C06'], canary=True),
+           ensures=['r is Ok <==> safe_name(name@) // [C06.names.validate]', 'r is Err ==> is_einval(r) // [C06.names.errno]'], props=['C06'], canary=True),
         # ---- inode encoding (C07)
         Group('impl VfsInode {', [
             Fn(MOD, 'impl VfsInode', 'new', requires=['ino <= 0xff_ffff_ffff_ffffu64'], ensures=['r.0 == enc(fs_idx, ino) // [C07.ino.new]'], props=P,
@@ -342,12 +333,12 @@ impl vstd::std_specs::convert::FromSpecImpl<u64> for VfsInode {
         Fn(MOD, 'impl Vfs', 'remap_ctx_ids', requires=['map_ok(mapping)'],
            ensures=['r is Ok', '*final(ctx) == ctx_to_int(mapping, *old(ctx)) // [C14.ctx.direction]'], props=['C14']),
         Fn(MOD, 'impl Vfs', 'get_fs_by_idx', requires=['self.wf()'],
-           ensures=['match r { Ok(fs) => self.sb()[fs_idx as int] == Some(fs), Err(_) => self.sb()[fs_idx as int] is None && enoent(r) } // [C07.slot]'], props=P),
+           ensures=['match r { Ok(fs) => self.sb()[fs_idx as int] == Some(fs), Err(_) => self.sb()[fs_idx as int] is None && is_enoent(r) } // [C07.slot]'], props=P),
         Fn(MOD, 'impl Vfs', 'get_real_rootfs', requires=['self.wf()'],
            ensures=['''match self.route(inode) {
                 Route::Pseudo(n) => r is Ok && r->Ok_0.0 == Either::<&PseudoFs, ArcBackFs>::Left(&self.root) && r->Ok_0.1.sidx() == 0 && r->Ok_0.1.sino() == n,
                 Route::Backend(i, n) => r is Ok && r->Ok_0.0 == Either::<&PseudoFs, ArcBackFs>::Right(self.sb()[i as int]->Some_0) && r->Ok_0.1 == VfsInode(enc(i, n)) && n <= 0xff_ffff_ffff_ffffu64 && i != 0,
-                Route::Vacant => enoent(r) } // [C07.route]'''], props=P, canary=True,
+                Route::Vacant => is_enoent(r) } // [C07.route]'''], props=P, canary=True,
            splices=[('^', 'after', 'broadcast use axiom_arc_cloned; proof { lemma_ino_mask(0); lemma_enc_decompose(inode.0); }'),
                     ('if let Some(mnt) = self.mountpoints.load().get(&inode.ino()).cloned() {', 'after',
                      'proof { assert(self.mp().contains_key(1u64)); assert(mnt == self.mp()[1u64]); lemma_enc_roundtrip(mnt.fs_idx, mnt.ino); }')]),
@@ -377,13 +368,13 @@ impl vstd::std_specs::convert::FromSpecImpl<u64> for VfsInode {
                 (Route::Pseudo(a), Route::Pseudo(b)) => self.root.allowed_%s(%s),
                 (Route::Backend(i, a), Route::Backend(j, b)) => i == j ==> self.be(i).allowed_%s(%s),
                 _ => true } // [C07.%s.route]''' % (a, b, op, args_p, op, args_b, op)],
-                  ensures=['!(%s) ==> einval(res) // [C06.vfs.%s.gate]' % (gate, op),
+                  ensures=['!(%s) ==> is_einval(res) // [C06.vfs.%s.gate]' % (gate, op),
                            '''(%s) ==> match (self.route(%s), self.route(%s)) {
-                (Route::Vacant, _) => enoent(res),
-                (_, Route::Vacant) => enoent(res),
+                (Route::Vacant, _) => is_enoent(res),
+                (_, Route::Vacant) => is_enoent(res),
                 (Route::Pseudo(a), Route::Pseudo(b)) => %s,
-                (Route::Backend(i, a), Route::Backend(j, b)) => if i == j { %s } else { einval(res) },
-                _ => einval(res) } // [C07.%s.cross][C07.%s.result]%s''' % (gate, a, b, okres, bres, op, op, '[C14.link.ids]' if conv else '')],
+                (Route::Backend(i, a), Route::Backend(j, b)) => if i == j { %s } else { is_einval(res) },
+                _ => is_einval(res) } // [C07.%s.cross][C07.%s.result]%s''' % (gate, a, b, okres, bres, op, op, '[C14.link.ids]' if conv else '')],
                   splices=[('^', 'after', 'proof { lemma_rt(self.route(%s).idx(), self.route(%s).ino()); lemma_rt(self.route(%s).idx(), self.route(%s).ino()); }' % (a, a, b, b))]
                   + ([('|e|', 'closure', '|e: Entry| -> (q: Result<Entry>) ensures self.conv_entry(idata_new.sidx(), Ok::<Entry, Error>(e), q)')] if conv else []))
     routed.append(two('rename', 'olddir', 'newdir', '*ctx, a, oldname@, b, newname@, flags', '*ctx, a, oldname@, b, newname@, flags'))
@@ -393,11 +384,11 @@ impl vstd::std_specs::convert::FromSpecImpl<u64> for VfsInode {
                 Route::Pseudo(n) => self.root.allowed_lookup(*ctx, n, name@),
                 Route::Backend(i, n) => self.be(i).allowed_lookup(*ctx, n, name@),
                 Route::Vacant => true } // [C07.lookup.route]'''],
-                     ensures=['has_slash(name@) ==> einval(res) // [C06.vfs.lookup.gate]',
+                     ensures=['has_slash(name@) ==> is_einval(res) // [C06.vfs.lookup.gate]',
                               '''!has_slash(name@) ==> match self.route(parent) {
                 Route::Pseudo(n) => self.pseudo_lookup_res(self.root.res_lookup(), 0u8, res, false),
                 Route::Backend(i, n) => self.conv_entry(i, self.be(i).res_lookup(), res),
-                Route::Vacant => enoent(res) } // [C07.lookup.result]''',
+                Route::Vacant => is_enoent(res) } // [C07.lookup.result]''',
                               '''!has_slash(name@) ==> match self.route(parent) {
                 Route::Pseudo(n) => self.pseudo_lookup_res(self.root.res_lookup(), 0u8, res, true),
                 _ => true } // [C14.lookup.ids]'''],
@@ -420,15 +411,6 @@ impl vstd::std_specs::convert::FromSpecImpl<u64> for VfsInode {
                               '!(self.route(nodeid) is Vacant) ==> *final(ctx) == ctx_to_int(self.eff_map(self.route(nodeid).idx()), *old(ctx)) // [C14.ctx.route]'],
                      splices=[('^', 'after', 'proof { lemma_rt(self.route(nodeid).idx(), self.route(nodeid).ino()); }')]))
     items.append(Group('impl Vfs {', routed))
-    items.append(Raw('''
-proof fn lemma_contains_push(s: Seq<u8>, x: u8, y: u8)
-    requires x != y
-    ensures s.push(y).contains(x) == s.contains(x)
-{
-    if s.contains(x) { let i = choose|i: int| 0 <= i < s.len() && s[i] == x; assert(s.push(y)[i] == x); }
-    if s.push(y).contains(x) { let i = choose|i: int| 0 <= i < s.push(y).len() && s.push(y)[i] == x; assert(i < s.len()); assert(s[i] == x); }
-}
-'''))
-    u = Unit('vfs', items, preludes=['base.rs', 'stdmodel.rs', 'vfs.rs'], generic_tags={'cap': ['C07'], 'touch': ['C06'], 'ids': ['C14']},
+    u = Unit('vfs', items, preludes=['base.rs', 'stdmodel.rs', 'names.rs', 'vfs.rs'], generic_tags={'cap': ['C07'], 'touch': ['C06'], 'ids': ['C14']},
              notes='\n'.join(notes))
     return u
